@@ -84,8 +84,9 @@ func run(c *core.Ctx) {
 	x.scanners()
 	x.dbs()
 	x.errors()
+	x.intset()
 	for rule, n := range map[string]int{"R1.access": 2, "R1.close": 3, "R1.exec-loop": 2, "R1.spawn": 3, "R2.restore-send": 4, "R2.batch": 3, "R2.forward": 2,
-		"R2.receive": 2, "R2.bigkey": 4, "R3.ttl": 3, "R3.db": 2, "R3.select": 10, "R4.align": 4, "R4.pipeline": 3, "R4.keys": 3, "R5.loop": 3, "R5.scanner": 5, "R5.dbs": 3, "R6.error": 14} {
+		"R2.receive": 2, "R2.bigkey": 4, "R3.ttl": 3, "R3.db": 2, "R3.select": 10, "R4.align": 4, "R4.pipeline": 3, "R4.keys": 3, "R5.loop": 3, "R5.scanner": 5, "R5.dbs": 3, "R6.error": 14, "R7.intset": 3} {
 		c.Expect(rule, n)
 	}
 }
@@ -106,7 +107,13 @@ func (x *rx) field(e ast.Expr) string {
 
 // cmd recognises a redigo-style call <conn>.<Method>("CMD", args...) and returns method, upper-cased command, receiver expression.
 func cmd(info *types.Info, call *ast.CallExpr) (method, command string, recv ast.Expr) {
-	sel, ok := ast.Unparen(call.Fun).(*ast.SelectorExpr)
+	fun := ast.Unparen(call.Fun)
+	if id, isID := fun.(*ast.Ident); isID { // a method value bound once to a local: `send := conn.Send; send("DUMP", k)`
+		if d := pat.DefOf(info, id); d != nil {
+			fun = ast.Unparen(d)
+		}
+	}
+	sel, ok := fun.(*ast.SelectorExpr)
 	if !ok || len(call.Args) == 0 {
 		return "", "", nil
 	}
@@ -390,13 +397,17 @@ func (x *rx) writer() {
 	bigP := wprop{node: func(_ *wscope, n ast.Node) bool { return x.callNode(bigF.Obj)(n) }}
 	isBig := func(n ast.Node) bool { return x.nodeHas(top, bigP, n, 0) }
 	// batch variable: x = append(x, ele)
-	var batch types.Object
+	var batch loc
 	isAppend := func(n ast.Node) bool {
 		b := pat.Stmt("_b = append(_b, _e)").Match(x.info, n, nil)
 		if b == nil || c07.Obj(x.info, b["_e"].(ast.Expr)) != ele {
 			return false
 		}
-		batch = c07.Obj(x.info, b["_b"].(ast.Expr))
+		l, ok := x.locOf(b["_b"].(ast.Expr))
+		if !ok {
+			return false
+		}
+		batch = l
 		return true
 	}
 	inLoop := func(pred func(ast.Node) bool) []cfgq.Point {
@@ -433,6 +444,10 @@ func (x *rx) writer() {
 				continue
 			}
 			conns = append(conns, x.field(recv))
+			if call.Ellipsis.IsValid() { // the argument list is built in a slice
+				x.spreadRestore(st, call)
+				continue
+			}
 			e := st.sc.ele
 			okArgs, unknown := len(call.Args) >= 4, false
 			if okArgs {
@@ -474,25 +489,41 @@ func (x *rx) writer() {
 			x.check("R2.restore-send", "writer/one-send", restores[i].Node().Pos(), w, "two RESTORE commands are sent for one key: without REPLACE the second fails with BUSYKEY and receiver aborts the run although nothing is wrong")
 		}
 	}
-	// final flush is given the batch
+	// final flush is given the batch; inside the loop a flush leaves a fresh batch behind
+	bp, okBP := x.batchParamOf()
 	for _, call := range x.calls(fn.Decl.Body, func(call *ast.CallExpr) bool { return c07.CalleeF(x.info, call) == x.fn["writeSend"].Obj }) {
+		if !okBP {
+			x.c.Undecidedf("R2.batch", "writer/final-flush-arg", call.Pos(), "writeSend has no parameter through which a batch of KeyNodes arrives")
+			continue
+		}
+		given := x.givenBatch(call, bp, batch)
 		if !c07.Within(call, rs.Body) {
-			x.c.Check("R2.batch", "writer/final-flush-arg", call.Pos(), len(call.Args) > 0 && c07.Obj(x.info, call.Args[0]) == batch, "the flush after the loop must be given the batch that the loop filled, otherwise the last partial batch is neither flushed nor confirmed")
-		} else {
-			// inside the loop the fresh slice that writeSend returns must replace the batch
-			as, _ := core.PathTo(rs.Body, call)[len(core.PathTo(rs.Body, call))-2].(*ast.AssignStmt)
-			okReset := false
-			if as != nil && len(as.Rhs) == 1 && len(call.Args) > 0 && c07.Obj(x.info, call.Args[0]) == batch {
-				if sig, isSig := x.fn["writeSend"].Obj.Type().(*types.Signature); isSig && sig.Results().Len() == len(as.Lhs) {
-					for i, l := range as.Lhs {
-						if _, isSlice := sig.Results().At(i).Type().Underlying().(*types.Slice); isSlice && c07.Obj(x.info, l) == batch {
-							okReset = true
-						}
+			x.c.Check("R2.batch", "writer/final-flush-arg", call.Pos(), given, "the flush after the loop must be given the batch that the loop filled, otherwise the last partial batch is neither flushed nor confirmed")
+			continue
+		}
+		const resetMsg = "inside the loop the batch must be replaced by a fresh slice when it is flushed (`batch = writeSend(batch, ...)`, or writeSend resetting it through the pointer it is given): otherwise already confirmed keys are forwarded to receiver again, which then waits for replies that never come"
+		if bp.byPtr {
+			okReset, known := x.resetsInPlace(bp)
+			if !okReset && !known {
+				x.c.Undecidedf("R2.batch", "writer/flush-resets-batch", call.Pos(), "writeSend assigns the batch behind its pointer parameter in a form that is not recognised as a fresh empty slice")
+			} else {
+				x.c.Check("R2.batch", "writer/flush-resets-batch", call.Pos(), given && okReset, resetMsg)
+			}
+			continue
+		}
+		// the fresh slice that writeSend returns must replace the batch
+		as, _ := core.PathTo(rs.Body, call)[len(core.PathTo(rs.Body, call))-2].(*ast.AssignStmt)
+		okReset := false
+		if as != nil && len(as.Rhs) == 1 && given {
+			if sig, isSig := x.fn["writeSend"].Obj.Type().(*types.Signature); isSig && sig.Results().Len() == len(as.Lhs) {
+				for i, l := range as.Lhs {
+					if ll, isL := x.locOf(l); isL && ll == batch && isNodeSlice(sig.Results().At(i).Type()) {
+						okReset = true
 					}
 				}
 			}
-			x.c.Check("R2.batch", "writer/flush-resets-batch", call.Pos(), okReset, "inside the loop the batch must be replaced by writeSend's fresh slice (`batch = writeSend(batch, ...)`): otherwise already confirmed keys are forwarded to receiver again, which then waits for replies that never come")
 		}
+		x.c.Check("R2.batch", "writer/flush-resets-batch", call.Pos(), okReset, resetMsg)
 	}
 	// big keys
 	bigs := inLoop(isBig)
@@ -619,15 +650,12 @@ func (x *rx) writer() {
 func (x *rx) writeSend() {
 	fn := x.fn["writeSend"]
 	g := x.g("writeSend")
-	var batch types.Object
-	if ps := fn.Decl.Type.Params.List; len(ps) > 0 && len(ps[0].Names) > 0 {
-		batch = x.info.Defs[ps[0].Names[0]]
-	}
+	bp, okBP := x.batchParamOf()
 	// the loop that visits the batch: range or index loop
 	var it *iter
 	core.Inspect(fn.Decl.Body, func(n ast.Node) bool {
 		if s, ok := n.(*ast.SendStmt); ok && x.field(s.Chan) == "resultChan" && it == nil {
-			if cand := x.iterOf(fn.Decl.Body, s); cand != nil && batch != nil && c07.Obj(x.info, cand.slice) == batch {
+			if cand := x.iterOf(fn.Decl.Body, s); cand != nil && okBP && x.isBatchIn(cand.slice, bp) {
 				it = cand
 			}
 		}
@@ -639,7 +667,7 @@ func (x *rx) writeSend() {
 	}
 	isLen := func(e ast.Expr) bool {
 		call, isC := c07.Through(x.info, e).(*ast.CallExpr)
-		return isC && len(call.Args) == 1 && c07.Obj(x.info, call.Args[0]) == batch && c07.Obj(x.info, call.Fun) != nil && c07.Obj(x.info, call.Fun).Name() == "len"
+		return isC && len(call.Args) == 1 && x.isBatchIn(call.Args[0], bp) && c07.Obj(x.info, call.Fun) != nil && c07.Obj(x.info, call.Fun).Name() == "len"
 	}
 	empty := func(b *cfg.Block, s int) bool { // the edge establishes len(batch) == 0 (a length is never negative: < 1 and <= 0 say the same)
 		return c07.EdgeFact(g, b, s, func(f cfgq.Fact) bool {
@@ -678,6 +706,24 @@ func (x *rx) writeSend() {
 	}
 	if w == nil && c07.ReachBlock(g, cfgq.Point{B: body}, false, isSend, post) {
 		w = []string{"an iteration over the batch does not send the element to resultChan"}
+	}
+	if w == nil && bp.byPtr { // the batch must be read (copied or iterated) before it is reset in place
+		var read ast.Node = it.stmt
+		if id, isID := ast.Unparen(it.slice).(*ast.Ident); isID {
+			if d := pat.DefOf(x.info, id); d != nil {
+				if path := core.PathTo(fn.Decl.Body, d); len(path) >= 2 {
+					for i := len(path) - 1; i >= 0; i-- {
+						if st, isSt := path[i].(ast.Stmt); isSt {
+							read = st
+							break
+						}
+					}
+				}
+			}
+		}
+		if ww := x.readAfterReset(bp, read); ww != nil {
+			w = append([]string{"the batch is read after writeSend already replaced it by the fresh slice:"}, ww...)
+		}
 	}
 	x.check("R2.forward", "writeSend/every-element", it.stmt.Pos(), w, "every element of a flushed batch must be forwarded to resultChan exactly once: an element not forwarded is never confirmed, so exec can finish while its RESTORE is still in flight")
 	for _, p := range g.Points(isSend) {
